@@ -102,6 +102,22 @@ CHECKS = {
              'the real PjRpcMocker; after every call the reply text, refusal, passthrough invocation and mocker.calls are '
              'compared with a rotating-list model. Short histories over a reduced alphabet are enumerated, longer ones sampled.',
         note='trusted: the list model inside vmon/monitors/c20.py; notifications and invalid remove/replace are not generated'),
+    'C10': dict(
+        category='exploration', design_ref='DESIGN.md §3 C10, §2.7',
+        technique='runtime monitor: controlled asyncio scheduler enumerating all interleavings (stateless DFS re-execution)',
+        text='Batches of 2..4 elements over 11 profiles (calls, notifications, plain methods; success, protocol error, arbitrary '
+             'exception; 0..2 suspension points in method, middleware or error handler) are dispatched by the real '
+             'AsyncDispatcher under a scheduler that parks every instrumented coroutine and resumes exactly one per step; all '
+             'schedules of every generated shape are executed and judged (request-order array, own ids/results, run-once, nothing '
+             'left in flight, sequential mode never overlapping).',
+        note='trusted: vmon/sched.py; exhaustive over user-code suspension points of the generated shapes only'),
+    'C12': dict(
+        category='exploration', design_ref='DESIGN.md §3 C12',
+        technique='runtime monitor: event log of instrumented middlewares/handlers vs straight-line model of the configuration',
+        text='All 85 stacks of 0..3 middlewares over four kinds x 8 error-handler tables x 20 request documents x {sync, async, '
+             'async with suspending middlewares} run on the real dispatchers; per-element enter/exit/handler event sequences '
+             '(with the objects handed over), executions and the response sent are compared with the model.',
+        note='trusted: the model in vmon/monitors/c12.py + vmon/models/server.py; probes do not raise'),
 }
 
 NOT_BUILT_REASON = 'no check registered yet in this round (monitor under construction, see DESIGN.md §3)'
